@@ -1688,7 +1688,7 @@ func (a *Agent) TaskPrepare(Command int, Info any, Message *map[string]string, C
 
 			/* LclAddr; LclPort; FwdAddr; FwdPort */
 			Params = strings.Split(Param, ";")
-			if len(Param) < 4 {
+			if len(Params) < 4 {
 				return nil, fmt.Errorf("rportfwd requires 4 arguments, received %d", len(Params))
 			}
 
